@@ -725,6 +725,107 @@ func gen(seed uint64, tier string) {
 		}
 		fmt.Fprintln(out)
 	}
+	// the nil interface value (outside the property: ToGeoJSON/Encode panic in reflect.TypeOf(nil).String()),
+	// FromGeoJSON(nil), and nil slices at every level (Encode writes [] for nil and for empty: make(...))
+	fmt.Fprintln(out, "tog NIL\nenc NIL\nrt NIL\nfromnil")
+	one := "1 " + vproto.F2H(1) + " " + vproto.F2H(2)
+	for _, t := range []string{"MP nil", "LS nil", "PG nil", "MLS 0", "MLS 1 nil", "MLS 2 " + one + " nil", "MLS 2 nil " + one,
+		"PG 1 nil", "PG 2 " + one + " nil", "PG 2 nil " + one, "MPG 0", "MPG 1 nil", "MPG 2 1 " + one + " nil", "MPG 1 1 nil",
+		"MPG 2 nil 1 " + one, "MPG 1 2 " + one + " nil", "GC 1 NIL", "GC 2 P " + vproto.F2H(1) + " " + vproto.F2H(2) + " NIL"} {
+		fmt.Fprintf(out, "tog %s\nenc %s\nrt %s\n", t, t, t)
+	}
+	// GeoJSON objects that are not geometry objects, foreign members, 3-D positions (RFC 7946 allows a third
+	// ordinate; this decoder rejects it everywhere), and the same through FromGeoJSON is covered by `fromt`
+	for _, s := range []string{
+		`{"type":"Feature","geometry":{"type":"Point","coordinates":[1,2]},"properties":null}`,
+		`{"type":"Feature","geometry":{"type":"Point","coordinates":[1,2]},"properties":{"coordinates":[3,4]},"coordinates":[5,6]}`,
+		`{"geometry":{"type":"Point","coordinates":[1,2]},"type":"Feature","id":7,"bbox":[1,2,1,2]}`,
+		`{"type":"FeatureCollection","features":[{"type":"Feature","geometry":{"type":"Point","coordinates":[1,2]},"properties":{}}]}`,
+		`{"type":"FeatureCollection","features":[]}`,
+		`{"type":"GeometryCollection","geometries":[{"type":"Point","coordinates":[1,2]}]}`,
+		`{"type":"GeometryCollection","geometries":[],"coordinates":[1,2]}`,
+		`{"type":"Point","coordinates":[1,2],"crs":{"type":"name","properties":{"name":"urn:ogc:def:crs:OGC:1.3:CRS84"}}}`,
+		`{"crs":{"type":"MultiPoint","coordinates":[[9,9]]},"type":"Point","coordinates":[1,2]}`,
+		`{"bbox":[0,0,0,10,10,10],"type":"Point","coordinates":[1,2]}`,
+		`{"type":"Point","bbox":null,"coordinates":[1,2],"properties":{"type":"LineString"}}`,
+		`{"type":"Point","coordinates":[1,2],"geometry":{"type":"LineString","coordinates":[[1,2],[3,4]]}}`,
+		`{"type":"Point","coordinates":[1,2],"":0,"typ":1,"types":2,"coordinate":3,"coordinatess":4,"type\u0000":5}`,
+		`{"type":"Point","coordinates":[1,2],"ty\u0070e":"LineString"}`, `{"type":"Point","coordinates":[1,2],"t\u0079pe":null}`,
+		`{"type":"Point","coordinates":[1,2],"\u212Aoordinates":[3,4]}`, `{"type":"Point","coordinates":[1,2],"TYPE":"MultiPoint"}`,
+		`{"type":"Point","coordinates":[1,2],"COORDINATES":[[3,4]]}`, `{"type":"Point","coordinates":[1,2],"coordinate\u017f":[3,4]}`,
+		`{"type":"Point","coordinates":[1,2],"type":{}}`, `{"type":[],"type":"Point","coordinates":[1,2]}`,
+		`{"type":"Point","coordinates":[1,2,0]}`, `{"type":"Point","coordinates":[1,2,0,0]}`, `{"type":"Point","coordinates":[1]}`,
+		`{"type":"MultiPoint","coordinates":[[1,2,3]]}`, `{"type":"MultiPoint","coordinates":[[1,2],[3,4,5]]}`,
+		`{"type":"LineString","coordinates":[[1,2,3],[4,5,6]]}`, `{"type":"MultiLineString","coordinates":[[[1,2,3]]]}`,
+		`{"type":"MultiLineString","coordinates":[[[1,2]],[[1,2,3]]]}`, `{"type":"Polygon","coordinates":[[[1,2,3],[4,5,6],[7,8,9],[1,2,3]]]}`,
+		`{"type":"Polygon","coordinates":[[[1,2],[4,5],[7,8],[1,2,3]]]}`, `{"type":"MultiPolygon","coordinates":[[[[1,2,3]]]]}`,
+		`{"type":"MultiPolygon","coordinates":[[[[1,2]]],[[[1,2]],[[1,2,3]]]]}`, `{"type":"MultiPolygon","coordinates":[[[[1,2]],[]],[[[4,5],[6]]]]}`,
+		`{"type":"Point","coordinates":[1,"2"]}`, `{"type":"Point","coordinates":[1,null]}`, `{"type":"Point","coordinates":[true,2]}`,
+		`{"type":"Point","coordinates":{"0":1,"1":2}}`, `{"type":"Point","coordinates":"1,2"}`, `{"type":"Point","coordinates":[[1,2]]}`,
+		`{"type":"MultiPoint","coordinates":[1,2]}`, `{"type":"Polygon","coordinates":[[1,2],[3,4]]}`, `{"type":"LineString","coordinates":[[[1,2]]]}`,
+		`{"type":"Point","coordinates":[1e400,2]}`, `{"type":"Point","coordinates":[-1e400,2]}`, `{"type":"Point","coordinates":[1e-400,-1e-400]}`,
+		`{"type":"Point","coordinates":[1.7976931348623158e308,2]}`, `{"type":"Point","coordinates":[1.7976931348623159e308,2]}`,
+		`{"type":"Point","coordinates":[9223372036854775808,-9223372036854775809]}`, `{"type":"Point","coordinates":[18446744073709551616,4294967296]}`,
+		`{"type":"Point","coordinates":[1,2],"bbox":[1e400,-1e999]}`, `{"coordinates":[1e400,1],"type":"Point","coordinates":[1,2]}`,
+		`{"type":"Point","coordinates":[1,2],"properties":{"coordinates":[1e400]}}`, `{"type":"Point","Coordinates":[[1e309]],"coordinates":[1,2]}`,
+		`{"type":"Point","coordinates":[0.1e1,100e-2]}`, `{"type":"Point","coordinates":[-0,0e0]}`, `{"type":"Point","coordinates":[2.5E+0,2.5e-0]}`,
+	} {
+		fmt.Fprintf(out, "dec x%s\n", hex.EncodeToString([]byte(s)))
+	}
+	// texts that are NOT JSON (RFC 8259): the driver's total parser must reject exactly what json.Unmarshal rejects
+	// with a SyntaxError; nothing may be decoded from them
+	good := `{"type":"LineString","coordinates":[[1,2],[3.5,-4e2]]}`
+	bad := []string{"", " ", "{", "}", "[", `{"type":"Point","coordinates":[1,2]`, `{"type":"Point","coordinates":[1,2]}}`, `{"type":"Point","coordinates":[1,2]} x`,
+		`{"type":"Point","coordinates":[1,2],}`, `{"type":"Point","coordinates":[1,2,]}`, `{"type":"Point","coordinates":[1,,2]}`, `{"type":"Point","coordinates":[,1,2]}`,
+		`{"type":"Point" "coordinates":[1,2]}`, `{"type""Point","coordinates":[1,2]}`, `{type:"Point","coordinates":[1,2]}`, `{'type':'Point','coordinates':[1,2]}`,
+		`{"type":"Point","coordinates":[01,2]}`, `{"type":"Point","coordinates":[+1,2]}`, `{"type":"Point","coordinates":[.5,2]}`, `{"type":"Point","coordinates":[1.,2]}`,
+		`{"type":"Point","coordinates":[1e,2]}`, `{"type":"Point","coordinates":[1e+,2]}`, `{"type":"Point","coordinates":[0x10,2]}`, `{"type":"Point","coordinates":[1_0,2]}`,
+		`{"type":"Point","coordinates":[NaN,2]}`, `{"type":"Point","coordinates":[Infinity,2]}`, `{"type":"Point","coordinates":[-Infinity,2]}`, `{"type":"Point","coordinates":[-,2]}`,
+		`{"type":"Point","coordinates":[1 2]}`, `{"type":"Point","coordinates":[1,2]]}`, `{"type":"Point","coordinates":(1,2)}`, `{"type":"Point","coordinates":[--1,2]}`,
+		`{"type":"Point","coordinates":[1.2.3,2]}`, `{"type":"Point","coordinates":[1e2e3,2]}`, `{"type":"Point","coordinates":[00,2]}`, `{"type":"Point","coordinates":[-01,2]}`,
+		`{"type":"Po` + "\n" + `int","coordinates":[1,2]}`, `{"type":"Po\xint","coordinates":[1,2]}`, `{"type":"Po\u12int","coordinates":[1,2]}`, `{"type":"Point,"coordinates":[1,2]}`,
+		`{"type":"Point","coordinates":[1,2],"a"}`, `{"type":"Point","coordinates":[1,2],"a":}`, `{"type":"Point","coordinates":[1,2],:1}`, `{"type":Point,"coordinates":[1,2]}`,
+		`{"type":nul,"coordinates":[1,2]}`, `{"type":"Point","coordinates":[tru,2]}`, `{"type":"Point","coordinates":[1,2]}{"type":"Point","coordinates":[1,2]}`,
+		`[{"type":"Point","coordinates":[1,2]}`, "\ufeff" + good, good + ",", good + "]", "//c\n" + good, good + "/**/", good[:len(good)-1], good[1:], "nul", "tru", "-", `"`, `"\`}
+	for _, s := range bad {
+		fmt.Fprintf(out, "dec x%s\n", hex.EncodeToString([]byte(s)))
+	}
+	nbad := 150
+	if tier == "thorough" {
+		nbad = 5000
+	}
+	for i := 0; i < nbad; i++ { // one random byte edit of a good document: may or may not stay JSON — the driver's parser decides
+		base := cfg{laterEmpty: true}.geom(r, r.Intn(6))
+		ty, c, _ := coordsNode(base)
+		var b strings.Builder
+		document(r, ty, c).text(r, &b, r.Bool())
+		t := []byte(b.String())
+		if len(t) == 0 {
+			continue
+		}
+		k := r.Intn(len(t))
+		switch r.Intn(4) {
+		case 0:
+			t = append(t[:k:k], t[k+1:]...) // delete
+		case 1:
+			const repl = "{}[],:\"0-+.eE 1tfn\\x"
+			t[k] = repl[r.Intn(len(repl))] // replace (ASCII: the text stays UTF-8)
+		case 2:
+			const ins = "{}[],:\"0-+.eE"
+			t = append(t[:k:k], append([]byte{ins[r.Intn(len(ins))]}, t[k:]...)...) // insert
+		default:
+			t = t[:k] // truncate
+		}
+		ok := true
+		for _, ch := range t {
+			if ch >= 0x80 || ch == '\n' || ch == '\r' { // keep to one-line ASCII so that the edit cannot split a UTF-8 sequence
+				ok = false
+			}
+		}
+		if ok {
+			fmt.Fprintf(out, "dec x%s\n", hex.EncodeToString(t))
+		}
+	}
 	// documents that are not objects
 	for _, s := range []string{"null", "[]", "1", `"Point"`, "true", "{}", `{"type":"Point"}`, `{"coordinates":[1,2]}`,
 		`{"type":"Point","coordinates":[1,2]}`, `{"type":"Point","coordinates":[1,2,3]}`, `{"type":"Point","coordinates":[]}`,
@@ -969,6 +1070,8 @@ func impl() {
 					panic(err)
 				}
 				res = result(geojson.Decode(buf))
+			case "fromnil":
+				res = result(geojson.FromGeoJSON(nil))
 			case "fromt":
 				ty := unhex(p.Next())
 				t := parseTree(p)
